@@ -1,9 +1,13 @@
-import sys
+import sys, re
 sys.path.insert(0,'/verif')
 from harness import core
 mod, cfg = sys.argv[1], sys.argv[2]
-r = core.run_tlc(mod, cfg, '/verif/.work/dbg-'+mod, workers=6, args=['-coverage','1'])
+r = core.run_tlc(mod, cfg, '/verif/.work/dbg-'+mod+cfg, workers=6, args=['-coverage','1'])
 print(r.ok, r.kind, r.generated, r.distinct, round(r.wall,1))
-print(r.error[:3000])
-if not r.ok: print(r.out[-6000:])
+print(r.error[:300])
+if not r.ok:
+    for st in r.cex:
+        keep = [ln for ln in st.split("\n") if re.match(r"(State|/\\ (str|pos|cfg|last|obs|done|got) )", ln)]
+        print("\n".join(k[:400] for k in keep))
+    if not r.cex: print(r.out[-3000:])
 else: print({k:v for k,v in r.coverage.items() if k[0].isupper()})
